@@ -94,7 +94,11 @@ Print Assumptions C14_checked_threads.
 (* (3) on the wire: EVERY schedule of any number of callers performing
        Do = [acquire; write the frame byte by byte; read one reply; release] and Close/Connect,
        against a transport that frames its input with [decode] (self-delimiting on the request
-       frames) and answers in arrival order with [reply_of]                                    *)
+       frames) and answers in arrival order with [reply_of].
+       The hypothesis [na_reqs]: no caller ABANDONS a call, i.e. leaves after the write without
+       reading the reply (its context ends).  The lock-level theorems (C14_steps_by_holder,
+       C14_one_at_a_time) hold with abandoned calls as well; the wire-level ones do not:
+       C14_abandoned_call_stale_reply_refuted below (known finding KF-C14-1, defect D18).        *)
 
 (* every write, read, transport call of Close / Connect (ATouch) and release is made by the caller
    that holds the mutex; the mutex is free whenever it is acquired *)
@@ -118,7 +122,7 @@ Print Assumptions C14_one_at_a_time.
 Theorem C14_wire_whole_frames_in_lock_order :
   forall reply_of decode (wf : frm -> Prop),
   (forall fs, Forall wf fs -> decode (List.concat fs) = fs) ->
-  forall reqs l s, wf_reqs wf reqs -> creach reply_of decode reqs l s ->
+  forall reqs l s, wf_reqs wf reqs -> na_reqs reqs -> creach reply_of decode reqs l s ->
   c_owner s = None ->
   wire s = List.concat (frames_of (acq_order l)) /\ decode (wire s) = frames_of (acq_order l).
 Proof. exact wire_whole_frames_in_lock_order. Qed.
@@ -127,23 +131,57 @@ Print Assumptions C14_wire_whole_frames_in_lock_order.
 Theorem C14_wire_never_interleaved :
   forall reply_of decode (wf : frm -> Prop),
   (forall fs, Forall wf fs -> decode (List.concat fs) = fs) ->
-  forall reqs l s i, wf_reqs wf reqs -> creach reply_of decode reqs l s ->
+  forall reqs l s i, wf_reqs wf reqs -> na_reqs reqs -> creach reply_of decode reqs l s ->
   c_owner s = Some i ->
   exists log' c written rest,
     acq_order l = log' ++ [(i, c)] /\
     wire s = List.concat (frames_of log') ++ written /\
-    match c with CDo f => f = written ++ rest | CCtl => written = [] end.
+    match c with CDo f => f = written ++ rest | CCtl => written = [] | CAb _ => False end.
 Proof. exact wire_never_interleaved. Qed.
 Print Assumptions C14_wire_never_interleaved.
 
 Theorem C14_every_caller_gets_own_reply :
   forall reply_of decode (wf : frm -> Prop),
   (forall fs, Forall wf fs -> decode (List.concat fs) = fs) ->
-  forall reqs l s i, wf_reqs wf reqs -> creach reply_of decode reqs l s ->
+  forall reqs l s i, wf_reqs wf reqs -> na_reqs reqs -> creach reply_of decode reqs l s ->
   (forall f r, In (f, r) (results (callers s i)) -> r = Some (reply_of f)) /\
   exists later, do_frames (reqs i) = map fst (results (callers s i)) ++ later.
 Proof. exact every_caller_gets_own_reply. Qed.
 Print Assumptions C14_every_caller_gets_own_reply.
+
+(* ---- KNOWN FINDING KF-C14-1 (defect D18): an abandoned call leaves its reply behind ----
+   client.go do / serialclient.go do write the frame BEFORE they look at the caller's context and
+   leave the read loop on `case <-ctx.Done()` without consuming (or later discarding) the reply.  The
+   device still answers; the next caller reads that stale frame as the reply to its own request
+   (the TCP transaction id is not compared, RTU has none).  Witness = the deterministic harness
+   case of stream conc: ONE caller, first call abandoned, second call of the same shape served. *)
+Definition ab_reqs (i : nat) : list call :=
+  match i with
+  | 0 => [CAb (lp_frame [1; 10]%N); CDo (lp_frame [2; 20]%N)]
+  | _ => []
+  end.
+Definition ab_reply (f : frm) : frm := map (fun b => b + 100)%N f.
+Definition ab_final : cst := run_schedule ab_reply decode_lp (repeat 0 12) (cinit ab_reqs).
+Theorem C14_abandoned_call_stale_reply_refuted :
+  exists l s f r,
+    creach ab_reply decode_lp ab_reqs l s /\ wf_reqs wf_lp ab_reqs /\
+    In (f, Some r) (results (callers s 0)) /\ r <> ab_reply f /\
+    (* it is the reply to the abandoned request *)
+    r = ab_reply (lp_frame [1; 10]%N) /\ f = lp_frame [2; 20]%N.
+Proof.
+  destruct (run_schedule_reach ab_reply decode_lp ab_reqs (repeat 0 12) [] _ (cr_init _ _ _)) as [l H].
+  exists l, ab_final, (lp_frame [2; 20]%N), (ab_reply (lp_frame [1; 10]%N)).
+  split; [exact H|]. split.
+  - intros [|i]; cbn; repeat constructor. exists [2; 20]%N. reflexivity.
+  - split; [vm_compute; left; reflexivity|]. split; [vm_compute; discriminate|]. split; reflexivity.
+Qed.
+Print Assumptions C14_abandoned_call_stale_reply_refuted.
+(* the positive side is the theorem above: C14_every_caller_gets_own_reply holds for every schedule
+   as soon as nobody abandons a call (na_reqs); the same holds when the abandoned requests are never
+   answered (a unit that is switched off: the transport of the supporting run leaves such frames out
+   of what it answers, and those cases must and do hold). *)
+Example C14_example_no_abandon : na_reqs ab_reqs -> False.
+Proof. intros H. specialize (H 0). discriminate. Qed.
 
 (* ---- the hypotheses are satisfiable ---- *)
 (* a self-delimiting framing exists (one length byte) *)
@@ -174,6 +212,8 @@ Example C14_example_outcome :
   results (callers ex_final 0) = [([2; 1; 2]%N, Some [2; 1; 2]%N)] /\
   pending (callers ex_final 0) = [].
 Proof. vm_compute. repeat split. Qed.
+Example C14_example_na : na_reqs ex_reqs.
+Proof. intros [|[|i]]; reflexivity. Qed.
 Example C14_example_wf : wf_reqs wf_lp ex_reqs.
 Proof.
   intros [|[|i]]; cbn; repeat constructor.
@@ -307,6 +347,22 @@ Example C14_mini_hooks_outside_lock :
                          fn_body := [Call "Client.exchange"; Branch [[Return]; []];
                                      Use "Client.hooks" R; Branch [[Use "Client.hooks" R]; []]; Return] |};
                       mini_do ]) = false.
+Proof. vm_compute. reflexivity. Qed.
+(* the exchange under a READ lock (exclusion left to something the skeleton does not see, e.g. a
+   channel used as semaphore): a function that read-locks must not touch the transport handle *)
+Example C14_mini_exchange_under_rlock :
+  well_locked (mini [ {| fn_name := "Client.Do"; fn_kind := KFunc; fn_exported := true;
+                         fn_body := [RLock "Client.mu"; DeferRUnlock "Client.mu"; Use "Client.conn" R;
+                                     Branch [[Return]; []]; Call "Client.do"; Return] |}; mini_do ]) = false.
+Proof. vm_compute. reflexivity. Qed.
+(* a Read started in a goroutine of its own (so that Do can return while it is pending): the go
+   body touches the port without holding the lock *)
+Example C14_mini_read_in_goroutine :
+  well_locked (mini [ {| fn_name := "SerialClient.Do"; fn_kind := KFunc; fn_exported := true;
+                         fn_body := [Lock "SerialClient.mu"; DeferUnlock "SerialClient.mu";
+                                     Use "SerialClient.serialPort" R;
+                                     Loop [Go [Use "SerialClient.serialPort" R]; Branch [[Return]; [Return]; []]];
+                                     Return] |} ]) = false.
 Proof. vm_compute. reflexivity. Qed.
 (* an unrecognised construct fails the obligation *)
 Example C14_mini_unknown :
